@@ -172,6 +172,14 @@ ASSUME Seen(R(SeqL(<<Def("g", SeqL(<<Ret(5), Echo(9)>>)), Def("f", SeqL(<<Inv("g
 \* return inside a loop inside a function
 ASSUME Ms(R(SeqL(<<Def("f", SeqL(<<For("ab", SeqL(<<Echo(1), Ret(3)>>)), Echo(2)>>)), For("ab", SeqL(<<Inv("f"), Echo(3)>>))>>), 0))
          = <<1, 3, 1, 3>>
+\* return in a subshell inside a function (2.13: the subshell is a duplicate of the environment that
+\* is executing the function; bash, dash and yash agree): it ends the subshell with that status,
+\* the function goes on:  f() { (return 3; echo no); echo $?; return; }; f; echo $?
+ASSUME Seen(R(SeqL(<<Def("f", SeqL(<<Subsh(SeqL(<<Ret(3), Echo(9)>>)), P(1), Ret(-1)>>)), Inv("f"), P(2)>>), 0))
+         = <<<<1, 3>>, <<2, 3>>>>
+\* f() ( return 3 ); f; echo $?      and      f() { echo a | return 3; echo $?; }
+ASSUME Seen(R(SeqL(<<Def("f", Subsh(Ret(3))), Inv("f"), P(2)>>), 0)) = <<<<2, 3>>>>
+ASSUME Seen(R(SeqL(<<Def("f", SeqL(<<Pipe(Echo(1), Ret(3)), P(2)>>)), Inv("f")>>), 0)) = <<<<1, 0>>, <<2, 3>>>>
 \* exit in a function, in a loop; exit without operand keeps $?
 ASSUME Ms(R(SeqL(<<Def("f", Exit(4)), For("ab", SeqL(<<Echo(1), Inv("f"), Echo(2)>>)), Echo(3)>>), 0)) = <<1>>
 ASSUME R(SeqL(<<Def("f", Exit(4)), Inv("f")>>), 0).st = 4 /\ R(SeqL(<<Mk(1, 3), Exit(-1)>>), 0).st = 3
